@@ -15,6 +15,11 @@
 //!         An empty receipt means "already paid": nothing is paid or uploaded, the put returns the data map / address.
 //!         The read goes against a source holding the chunks of `encrypt(bytes)` and, for len < 3, also those of the
 //!         zero-padded 3-byte input (so a silently padded put reads back as something and is seen to be mangled).
+//!   bound max=<M> len=<L> fill=<F> tab=<...> big=<size of the largest content chunk>
+//!         measurement of the clause "every produced chunk is no larger than the maximum chunk size" on the real output:
+//!         `big` is read from the real chunks (`big=?` in a replay line is filled in), the output says by how much the
+//!         largest chunk exceeds MAX_CHUNK_SIZE (the third-party cipher pads: known finding K-j-chunk-exceeds-max) and
+//!         whether the data-map chunk (repo code) fits
 //! fill = z (zeros) | c<b> (constant byte) | p (i*7+3) | r<seed> (pseudo-random)
 //! tab  = per data-map level d = 1.. (1 = the map of the user data): number of chunks n_d and size w_d of the serialised
 //!        `DataMapLevel` — read back from the real output by an independent unpacker (`-` if there is none);
@@ -26,6 +31,7 @@
 //! Output: enc -> `ok lvl=<k> dm=<size of data-map chunk> addr=<content|other> chunks=<level*count ...>` | `err selfenc`
 //!         (run-length encoded levels of the returned chunk list: content chunks first, then level 2, 3, …)
 //!         fetch -> `ok same` | `ok different` | `err <class>`
+//!         bound -> `content within dm=<fits|over>` | `content over=<bytes over MAX_CHUNK_SIZE> dm=<fits|over>` | `err selfenc`
 use ant_evm::EvmNetwork;
 use ant_networking::verif::{LocalSwarmCmd, NetworkSwarmCmd};
 use ant_networking::{GetRecordError, Network, NetworkError};
@@ -351,6 +357,8 @@ fn real_fetch(rt: &tokio::runtime::Runtime, e: &Encrypted, data: &[u8], want_cod
 // ---------------------------------------------------------------------------------------------------------
 
 struct Stats {
+    /// largest serialised data-map level of three chunks seen (the `floor` of the Lean hypothesis `Shrinks`)
+    max_w3: usize,
     max_overhead: i64,
     max_chunk: usize,
     max_record: usize,
@@ -366,7 +374,7 @@ fn field<'a>(ws: &[&'a str], key: &str) -> Option<&'a str> {
 fn exec(rt: &tokio::runtime::Runtime, line: &str, max: usize, out: &mut Out, st: &mut Stats) -> Option<(String, String)> {
     let ws: Vec<&str> = line.split_whitespace().collect();
     let op = *ws.first()?;
-    if op != "enc" && op != "fetch" && op != "put" {
+    if op != "enc" && op != "fetch" && op != "put" && op != "bound" {
         return Some((line.to_string(), "bad-op".into()));
     }
     if op == "put" {
@@ -435,9 +443,34 @@ fn exec(rt: &tokio::runtime::Runtime, line: &str, max: usize, out: &mut Out, st:
                 }
             }
             st.first_len_of_level.entry(e.levels.len()).and_modify(|l| *l = (*l).min(len)).or_insert(len);
+            // sizes the termination argument assumes of the third-party crate (Lean: `Shrinks`): every further level's
+            // serialised data map is shorter than the level below it, and a three-chunk level fits into a chunk
+            for d in 1..e.levels.len() {
+                if e.levels[d].w >= e.levels[d - 1].w {
+                    out.oracle_fail("levels-shrink", &format!("{hist} tab=? codes=-"), &format!("data-map level {} serialises to {} bytes, not fewer than level {} ({} bytes): the pack loop need not end", d + 1, e.levels[d].w, d, e.levels[d - 1].w));
+                }
+            }
+            for l in &e.levels {
+                if l.n == 3 {
+                    st.max_w3 = st.max_w3.max(l.w);
+                }
+            }
+            if st.max_w3 > max {
+                out.oracle_fail("levels-shrink", &format!("{hist} tab=? codes=-"), &format!("a three-chunk data-map level of {} bytes does not fit MAX_CHUNK_SIZE {max}", st.max_w3));
+            }
         }
     }
     match (op, enc) {
+        ("bound", Err(_)) => Some((format!("{hist} tab=- big=0"), "err selfenc".into())),
+        ("bound", Ok(e)) => {
+            let big = e.chunks.iter().map(|c| c.value().len()).max().unwrap_or(0);
+            let dm = if e.dm_chunk.value().len() <= max { "fits" } else { "over" };
+            out.count(&format!("bound:{}", if big > max { "over" } else { "within" }));
+            Some((
+                format!("{hist} tab={} big={big}", tab_of(&e)),
+                if big > max { format!("content over={} dm={dm}", big - max) } else { format!("content within dm={dm}") },
+            ))
+        }
         ("enc", Err(_)) => Some((format!("{hist} tab=-"), "err selfenc".into())),
         ("enc", Ok(e)) => {
             let sound = e.chunks.iter().chain(std::iter::once(&e.dm_chunk)).all(|c| c.address().xorname().0 == sha3(c.value()));
@@ -625,6 +658,15 @@ fn main() {
                     }
                 }
             }
+            // the chunk-size measurement: below, at and above a full chunk per piece, compressible and not
+            for l in [3usize, max, 3 * max - 1, 3 * max, 3 * max + 1, 4 * max, 5 * max + 7] {
+                for fill in ["z", "r7"] {
+                    if l > 3 * max && !small {
+                        continue;
+                    }
+                    v.push(format!("bound max={max} len={l} fill={fill} tab=? big=?"));
+                }
+            }
             // boundary lengths first (both ops), then random ones
             let budget = args.n as usize + v.len();
             for (i, l) in lens.iter().enumerate() {
@@ -658,7 +700,7 @@ fn main() {
             v
         }
     };
-    let mut st = Stats { max_overhead: i64::MIN, max_chunk: 0, max_record: 0, first_len_of_level: HashMap::new(), peak_pending: 0 };
+    let mut st = Stats { max_w3: 0, max_overhead: i64::MIN, max_chunk: 0, max_record: 0, first_len_of_level: HashMap::new(), peak_pending: 0 };
     for line in &lines {
         if let Some((norm, res)) = exec(&rt, line, max, &mut out, &mut st) {
             let op = norm.split(' ').next().unwrap_or("?").to_string();
@@ -670,8 +712,8 @@ fn main() {
     let mut lv: Vec<(usize, usize)> = st.first_len_of_level.into_iter().collect();
     lv.sort();
     out.notes.push(format!(
-        "selfenc MAX_CHUNK_SIZE={max}: largest content chunk {} bytes (overhead over MAX_CHUNK_SIZE {}), largest chunk record {} bytes (node limit {}); smallest input length seen per number of data-map levels: {:?}; download window 6, peak outstanding requests {}",
-        st.max_chunk, st.max_overhead, st.max_record, ant_networking::MAX_PACKET_SIZE, lv, st.peak_pending
+        "selfenc MAX_CHUNK_SIZE={max}: largest content chunk {} bytes (overhead over MAX_CHUNK_SIZE {}), largest chunk record {} bytes (node limit {}); largest three-chunk data-map level {} bytes (the floor of the Lean hypothesis Shrinks; must be <= MAX_CHUNK_SIZE); every further level shorter than the one below; smallest input length seen per number of data-map levels: {:?}; download window 6, peak outstanding requests {}",
+        st.max_chunk, st.max_overhead, st.max_record, ant_networking::MAX_PACKET_SIZE, st.max_w3, lv, st.peak_pending
     ));
     out.finish();
 }
